@@ -148,10 +148,12 @@ def areaOf (ctx : Ctx) (bs : Bytes) : String :=
       match cells with
       | [] => "0"
       | c0 :: _ =>
-        let last := (cells.getLast?.getD c0).1
+        let cells := cells.filter (fun c => c.2.2 ≠ Val.empty)
+        let rmin := cells.foldl (fun m c => min m c.1) c0.1
+        let rmax := cells.foldl (fun m c => max m c.1) c0.1
         let cmin := cells.foldl (fun m c => min m c.2.1) c0.2.1
         let cmax := cells.foldl (fun m c => max m c.2.1) c0.2.1
-        toString ((last - c0.1 + 1) * (cmax - cmin + 1))
+        toString ((rmax - rmin + 1) * (cmax - cmin + 1))
     | _ => "-"
   | _ => "-"
 
